@@ -38,7 +38,7 @@ fn record(log: &Mutex<Vec<Op>>, op: Op) {
 pub fn run(seed: u64, out: &str, millis: u64) -> bool {
     let mut sink = Sink::new(out);
     let mut all_ok = true;
-    let limit = millis * 10 / 1000 + 45;
+    let limit = millis * 10 / 1000 + 150;
     let why = format!("the free-running stress did not finish within {} s: a thread (or shutdown()) is blocked for ever", limit);
     crate::start_deadline(out.to_string(), limit, vec!["# case stress deadline".to_string(), "S monitors".to_string()],
         vec!["# case stress deadline".to_string(), format!("R violations C18/hang {} ;; C13/hang {}", why, why)]);
@@ -319,7 +319,7 @@ fn hammer(sink: &mut Sink, millis: u64) -> bool {
         found.push(format!("C15/records-not-conserved hammer: hits={} buffered={} delivered={} dropped={}", hits, buffered, added, dropped));
     }
     // ---- let every time-to-live elapse and every shard be swept
-    let deadline = Instant::now() + Duration::from_secs(5);
+    let deadline = Instant::now() + Duration::from_secs(60);
     loop {
         clock.0.fetch_add(1_000_000_000, Ordering::SeqCst);
         std::thread::sleep(Duration::from_millis(15));
